@@ -472,11 +472,23 @@ def r10_secret_measure(ctx, configs, rule_id='C10.R10'):
                 c = [c for c in calls(f['body']) if is_sink(c) and c['l'] == line][0]
                 arg = canon(c['args'][helper_arg.get(c.get('callee'), 0)])
                 for h in hits:
-                    sizes.add((h['env'].get('size(%s)' % arg), line, h['path']))
+                    v = h['env'].get('size(%s)' % arg)
+                    if v is not None and re.fullmatch(r'\w+', v) and h['env'].get(v):
+                        v = h['env'][v]          # a local that holds the value (e.g. the length the primitive returned)
+                    sizes.add((v, line, h['path']))
             if not sizes:
                 r.undecided(q, site, 'setKeyBits not reached', file=f['file'], line=f['line'])
                 continue
             verdict = None
+            lenvars = set()
+            for n in walk(f['body']):
+                if n.get('k') == 'Decl':
+                    for d in n['decls']:
+                        i = d.get('init')
+                        if i is not None and any(short(c.get('callee')) in (prim, 'length') for c in calls(i)):
+                            lenvars.add(d['var']['name'])
+                elif n.get('k') == 'Assign' and n['a'].get('k') == 'Var' and any(short(c.get('callee')) == prim for c in calls(n['b'])):
+                    lenvars.add(n['a']['name'])
             for sz, line, path in sorted(sizes, key=lambda x: (str(x[0]), x[1])):
                 names = set(re.findall(r'[A-Za-z_]\w*(?=(?:@\d+)?\()', sz or ''))
                 if sz is None:
@@ -484,7 +496,7 @@ def r10_secret_measure(ctx, configs, rule_id='C10.R10'):
                 elif names & set(badsrc):
                     verdict = ('violated', 'the secret is measured by %s (size %s): that is the length of the group order, but the secret is %s - on curves where the two differ the derived key is cut or padded and does not match the peer\'s' % ('/'.join(sorted(names & set(badsrc))), sz, why), line, path)
                     break
-                elif prim in names:
+                elif prim in names or mentions_any(sz, lenvars):
                     continue          # the size is the length the primitive returned: that is C10.R3's violation, not a question of the measure
                 elif not (names & set(good)):
                     verdict = verdict or ('undecided', 'the size of the secret (%s) comes from none of the known measures %s' % (sz, '/'.join(good)), line, path)
